@@ -81,8 +81,12 @@ func (g *Gateway) Query(ctx context.Context, input *graphql.QueryInput, receiver
 		case "__schema":
 			result[field.Alias] = g.introspectSchema(introspectionSchema, field.SelectionSet)
 		case "__type":
-			// there is a name argument to look up the type
-			name := field.Arguments.ForName("name").Value.Raw
+			// there is a name argument to look up the type: a literal or a variable
+			nameValue, err := field.Arguments.ForName("name").Value.Value(input.Variables)
+			if err != nil {
+				return err
+			}
+			name, _ := nameValue.(string)
 
 			// look for the type with the designated name
 			var introspectedType *introspection.Type
